@@ -119,7 +119,7 @@ func rTy(t Ty) string {
 	case t.K != nil && t.V != nil:
 		s = "map" + cpp + "<" + rTy(*t.K) + ", " + rTy(*t.V) + ">"
 	case t.V != nil && t.Name == "list":
-		s = "list<" + rTy(*t.V) + ">" + cpp
+		s = "list<" + rTy(*t.V) + ">" + strings.TrimRight(cpp, " ")
 	case t.V != nil:
 		s = t.Name + cpp + "<" + rTy(*t.V) + ">"
 	}
